@@ -1140,7 +1140,7 @@ fn quote_into_trait(input: &DataType, ctx: &ImplContext, pre_init: Option<TokenS
     let body = match post_init {
         Some(post_init) => quote! {
             #pre_init
-            let mut obj: #dst = Default::default();
+            let mut obj: #dst #those_gens = Default::default();
             #init
             #post_init
             obj
@@ -1170,7 +1170,7 @@ fn quote_try_into_trait(input: &DataType, ctx: &ImplContext, pre_init: Option<To
     let body = match post_init {
         Some(post_init) => quote! {
             #pre_init
-            let mut obj: #dst = Default::default();
+            let mut obj: #dst #those_gens = Default::default();
             #init
             #post_init
             Ok(obj)
